@@ -293,7 +293,7 @@ def churn_shard(shard, nshards, seed, tier, exe, nhist):
                     oser = lines[li + 2].split()[1]
                     li += 3
                     want = st[1]
-                    for form in ("fe", "fc", "it", "lh", "vi"):
+                    for form in ("fe", "fc", "it", "lh", "ls", "bk", "vi"):
                         got = kv_list(d[form])
                         if got != want:
                             key, what = "iteration/" + form, "iteration form %s yields %s, model says %s" % (form, got[:8], want[:8])
